@@ -1141,6 +1141,9 @@ func (o *Origin) inlinable(fn *ssa.Function) bool {
 	if o.depth >= maxInlineDepth || len(fn.Blocks) > 12 {
 		return false
 	}
+	if o.p.hasOwnStoreOp(fn) {
+		return false // a store accessor (also one that delegates the operation to a helper it hands its store to)
+	}
 	rets := 0
 	for _, b := range fn.Blocks {
 		if inCycle(b) {
